@@ -632,9 +632,10 @@ def make_world(kind, version, level, rng, **kw):
 # expected to be rejected; wild ones exercise re-attachment, shadow reads and alternative views.
 FAULTS = ('f_wrong_class', 'f_wrong_name', 'f_foreign_elem', 'f_level_add', 'f_level_set', 'f_version_add',
           'f_version_set', 'f_card', 'f_badvalue', 'f_del_absent', 'f_delidx_absent', 'f_dtchange', 'f_value_wrongname',
-          'f_children_bad', 'f_settype', 'f_value_badleaf', 'f_deep_level_set', 'f_deep_version_set')
+          'f_children_bad', 'f_settype', 'f_value_badleaf', 'f_deep_level_set', 'f_deep_version_set',
+          'f_parent_ctor_level', 'f_parent_ctor_version', 'f_parent_assign_level', 'f_parent_assign_version')
 WILD = ('w_reattach', 'w_add_twice', 'w_set_own', 'w_read', 'w_parent_ctor', 'w_del_view', 'w_pop', 'w_children_assign',
-        'w_value', 'w_setitem_view', 'w_deep_write', 'w_detached_readd')
+        'w_value', 'w_setitem_view', 'w_deep_write', 'w_detached_readd', 'w_parent_assign')
 
 
 class Skip(Exception):
@@ -839,6 +840,22 @@ def apply_wild(world, op):
             G(lambda: setattr(getattr(el, lname), rname.lower(), offered))
         else:
             raise Skip()
+    elif k in ('f_parent_ctor_level', 'f_parent_ctor_version', 'f_parent_assign_level', 'f_parent_assign_version'):
+        # attachment through the parent= constructor argument / the parent setter of an element of another level/version
+        lvl = 3 - world.level if 'level' in k else world.level
+        ver = _other_version(world.version) if 'version' in k else world.version
+        if world.kind == 'message' and world.group is not None and name == world.group.name:
+            raise Skip()
+        cls = _child_cls(world) if world.kind != 'message' else core.Segment
+        if 'ctor' in k:
+            G(lambda: cls(name, parent=el, version=ver, validation_level=lvl))
+        else:
+            try:
+                offered = cls(name, version=ver, validation_level=lvl)
+            except Exception:
+                raise Skip()
+            world.detached.append(offered)
+            G(lambda: setattr(offered, 'parent', el))
     # ---- wild (usually accepted)
     elif k == 'w_reattach':
         src = reps(other)
@@ -916,6 +933,14 @@ def apply_wild(world, op):
             seg = g.children[0].name if g is not None and name == g.name else None
             if seg is None:
                 G(lambda: setattr(getattr(el, lname), '%s_1' % lname, val[1:]))
+    elif k == 'w_parent_assign':
+        # move an element (attached to the other element, or detached) by assigning its parent
+        src = reps(other) or [c for c in world.detached if treeinv.parent_of(c) is None and
+                              c.__dict__.get('name') == name and c.__dict__.get('version') == world.version and
+                              c.__dict__.get('validation_level') == world.level]
+        if src:
+            offered = src[i % len(src)]
+            G(lambda: setattr(offered, 'parent', el))
     elif k == 'w_detached_readd':
         cands = [c for c in world.detached if treeinv.parent_of(c) is None and c.__dict__.get('name') in world.names
                  and c.__dict__.get('version') == world.version and c.__dict__.get('validation_level') == world.level]
